@@ -38,6 +38,7 @@ type scen struct {
 	Procs   int
 	Ordered bool // compare the row sequence, not the multiset
 	Chan    int
+	Bag     bool // reference = one row per matching triple combination
 }
 
 func bt(n string) bqlm.Term  { return bqlm.Term{Kind: bqlm.Bind, Name: n} }
@@ -69,6 +70,12 @@ func scenarios() []scen {
 	out = append(out, scen{Name: "join3/procs2/chan1", Q: sel(join), Data: d3, Procs: 2, Chan: 1})
 	out = append(out, scen{Name: "order-total", Q: ord(join, bqlm.Key{Binding: "?o"}, bqlm.Key{Binding: "?x"}, bqlm.Key{Binding: "?s"}), Data: d4, Procs: 2, Ordered: true})
 	out = append(out, scen{Name: "order-repeated-key", Q: ord(join, bqlm.Key{Binding: "?o", Desc: true}, bqlm.Key{Binding: "?x"}, bqlm.Key{Binding: "?o", Desc: true}, bqlm.Key{Binding: "?s"}), Data: d4, Procs: 2, Ordered: true})
+	// time bounds taken from a binding: per-row lookup options derived concurrently
+	ba := bqlm.BoundAliasShapes()[0]
+	bg := bqlm.BoundAliasGraphs()[0]["?g"]
+	for _, procs := range []int{1, 2} {
+		out = append(out, scen{Name: fmt.Sprintf("bound-from-binding/procs%d", procs), Q: sel(ba), Data: bg, Procs: procs, Bag: true})
+	}
 	one := []bqlm.Clause{{S: bt("?s"), P: bt("?p"), O: bt("?o")}}
 	out = append(out, scen{Name: "single-clause-order", Q: ord(one, bqlm.Key{Binding: "?s"}, bqlm.Key{Binding: "?p"}, bqlm.Key{Binding: "?o"}), Data: d2, Procs: 2, Ordered: true})
 	return out
@@ -76,6 +83,12 @@ func scenarios() []scen {
 
 // expected rows: multiset (sorted) or, for a total order, the unique sorted sequence.
 func expected(s scen) []string {
+	if s.Bag {
+		// an un-aliased time-range term returns one row per matching triple (recorded finding
+		// C03-row-per-triple-combination); what this scenario decides is that the rows do not
+		// depend on the schedule, so the per-triple bag is the reference here
+		return bqlm.Project(bqlm.BagSolutions(s.Q.Where, s.Data, s.Q.GLo, s.Q.GHi), s.Q.Proj)
+	}
 	rows, err := bqlm.EvalRows(s.Q, s.Data)
 	if err != nil {
 		common.Machinery("reference evaluator: %v", err)
